@@ -7,7 +7,9 @@ import "github.com/biogo/biogo/feat"
 // Contracts for the deductive verifier in /verif (govc). This file is only
 // compiled with -tags verif; it adds no behaviour to the package.
 
-//@ spec sortedNonOverlap(s Exons) bool = forall i int :: 0 < i && i < len(s) ==> s[i].Offset >= s[i-1].Offset + s[i-1].Length
+// (an exon is an interval, so its length is not negative: with a negative length "starts at or after the previous
+// end" would not keep two exons apart)
+//@ spec sortedNonOverlap(s Exons) bool = (forall i int :: 0 <= i && i < len(s) ==> s[i].Length >= 0) && (forall i int :: 0 < i && i < len(s) ==> s[i].Offset >= s[i-1].Offset + s[i-1].Length)
 //@ spec sameLoc(s Exons) bool = forall i int :: 0 < i && i < len(s) ==> s[i].Transcript == s[i-1].Transcript
 
 //@ func (Exons).Less
@@ -28,6 +30,7 @@ import "github.com/biogo/biogo/feat"
 //@   loop 1 invariant 0 <= idx && idx <= len(newSlice)
 //@   loop 1 invariant forall k int :: 0 < k && k < idx ==> newSlice[k].Offset >= newSlice[k-1].Offset + newSlice[k-1].Length
 //@   loop 1 invariant forall k int :: 0 < k && k < idx ==> newSlice[k].Transcript == newSlice[k-1].Transcript
+//@   loop 1 invariant [lengths] forall k int :: 0 <= k && k < idx ==> newSlice[k].Length >= 0
 
 //@ func (Exons).Introns
 //@   property C20
